@@ -118,7 +118,7 @@ func StubC17ParseFile(fset *token.FileSet, filename string, src any, mode parser
 		})
 	}
 	for i, d := range st.decls {
-		if fd, ok := d.(*ast.FuncDecl); ok && st.cs.fixed != "" && fd.Name.Name == st.cs.fixed {
+		if fd, ok := d.(*ast.FuncDecl); ok && st.cs.fixed != "" && c17IsFixed(st.cs.fixed, fd.Name.Name) {
 			st.touched[i] = true
 			st.any = true
 		}
@@ -143,6 +143,16 @@ func c17ImportTouched(cs c17Case, d ast.Decl) bool {
 	gd := d.(*ast.GenDecl)
 	for _, sp := range gd.Specs {
 		if is, ok := sp.(*ast.ImportSpec); ok && strings.Contains(cs.patch, "-import "+is.Path.Value) {
+			return true
+		}
+	}
+	return false
+}
+
+// c17IsFixed: name is one of the comma-separated always-rewritten functions.
+func c17IsFixed(fixed, name string) bool {
+	for _, f := range strings.Split(fixed, ",") {
+		if f != "" && f == name {
 			return true
 		}
 	}
@@ -292,7 +302,7 @@ func ReplayC17Comments() {
 		gd, ok := d.(*ast.GenDecl)
 		st.isImport = append(st.isImport, ok && gd.Tok == token.IMPORT)
 		st.touched = append(st.touched, false)
-		if fd, ok := d.(*ast.FuncDecl); ok && cs.fixed != "" && fd.Name.Name == cs.fixed {
+		if fd, ok := d.(*ast.FuncDecl); ok && cs.fixed != "" && c17IsFixed(cs.fixed, fd.Name.Name) {
 			st.touched[i] = true
 			st.any = true
 		}
